@@ -1,24 +1,24 @@
 #!/bin/bash
-# tools/seed_confirm.sh <ID> <k> — confirm a seeded change in its scratch worktree /tmp/seed/<ID>:
+# tools/seed_confirm.sh <ID> <k> — confirm a seeded change in its scratch worktree ${SEEDROOT:-/tmp/seed}/<ID>:
 # the demo passes on the original tree; with the change the tree builds, the project's own tests pass, the demo fails.
-id=$1; k=$2; w=/tmp/seed/$id
+id=$1; k=$2; w=${SEEDROOT:-/tmp/seed}/$id
 export GOFLAGS=-mod=mod GOPROXY=off GOSUMDB=off GOTOOLCHAIN=local
 cd $w || exit 2
 git checkout -q -- . 
 demo=$(ls $(git ls-files --others --exclude-standard | grep "zz_seed.*_${k}_demo") 2>/dev/null | head -1)
 [ -z "$demo" ] && { echo "$id/$k: no demo file"; exit 2; }
 run_demo() {
-  if [[ "$demo" == *.sh ]]; then bash "$demo" >/tmp/seed/$id/demo_$k.$1.out 2>&1; return $?; fi
+  if [[ "$demo" == *.sh ]]; then bash "$demo" >${SEEDROOT:-/tmp/seed}/$id/demo_$k.$1.out 2>&1; return $?; fi
   pkg=./$(dirname "$demo")
   tests=$(grep -o '^func Test[A-Za-z0-9_]*' "$demo" | sed 's/func //' | paste -sd'|')
-  go test -vet=off -count=1 -run "^($tests)\$" $pkg >/tmp/seed/$id/demo_$k.$1.out 2>&1
+  go test -vet=off -count=1 -run "^($tests)\$" $pkg >${SEEDROOT:-/tmp/seed}/$id/demo_$k.$1.out 2>&1
 }
 run_demo orig; r0=$?
 git apply seed_$k.diff || { echo "$id/$k: patch does not apply"; exit 2; }
 go build ./... >/dev/null 2>&1; rb=$?
-mkdir -p /tmp/seed/$id/.away; for f in $(git ls-files --others --exclude-standard | grep "zz_seed"); do mkdir -p /tmp/seed/$id/.away/$(dirname $f); mv $f /tmp/seed/$id/.away/$f; done
-go test -vet=off -count=1 ./... >/tmp/seed/$id/suite_$k.out 2>&1; rt=$?
-(cd /tmp/seed/$id/.away && find . -type f | while read f; do mv "$f" "$w/$f"; done)
+mkdir -p ${SEEDROOT:-/tmp/seed}/$id/.away; for f in $(git ls-files --others --exclude-standard | grep "zz_seed"); do mkdir -p ${SEEDROOT:-/tmp/seed}/$id/.away/$(dirname $f); mv $f ${SEEDROOT:-/tmp/seed}/$id/.away/$f; done
+go test -vet=off -count=1 ./... >${SEEDROOT:-/tmp/seed}/$id/suite_$k.out 2>&1; rt=$?
+(cd ${SEEDROOT:-/tmp/seed}/$id/.away && find . -type f | while read f; do mv "$f" "$w/$f"; done)
 run_demo seeded; r1=$?
 git checkout -q -- .
 echo "$id/$k: demo-on-original=$([ $r0 = 0 ] && echo PASS || echo FAIL) build=$([ $rb = 0 ] && echo ok || echo FAIL) suite=$([ $rt = 0 ] && echo pass || echo FAIL) demo-on-seeded=$([ $r1 = 0 ] && echo PASS || echo FAIL)  [$demo]"
